@@ -195,11 +195,12 @@ class CVRPTWEnv(CVRPEnv):
                 gather_by_index(td["locs"], curr_node).reshape([batch_size, 2]),
                 gather_by_index(td["locs"], next_node).reshape([batch_size, 2]),
             ).reshape([batch_size, 1])
+            # arrival times are compared as they are (no truncation), exactly as the action mask does
             curr_time = torch.max(
-                (curr_time + dist).int(),
-                gather_by_index(td["time_windows"], next_node)[..., 0].reshape(
-                    [batch_size, 1]
-                ),
+                curr_time + dist,
+                gather_by_index(td["time_windows"], next_node)[..., 0]
+                .reshape([batch_size, 1])
+                .to(curr_time.dtype),
             )
             assert torch.all(
                 curr_time
